@@ -284,7 +284,7 @@ func ruleUnmarshalDeleg(e *Env, rule, pkg string, fn *ssa.Function, name, ruleAr
 		switch {
 		case !asked:
 			e.S.Bad(rule, site, name, "does not parse through the package-level Parser with rule "+ruleArg+" (asked: "+lf.String()+")", e.Pos(fn), "")
-		case v == 0 && got == "nil" && final == ext(call, 0):
+		case v == 0 && (got == "nil" || got == ext(call, 1)) && final == ext(call, 0): // (the parser's error is nil on this valuation)
 			e.S.Ok(rule, site, name+" ok", "receiver := Parser(data, "+ruleArg+"), returns nil", e.Pos(fn))
 		case v == 1 && strings.HasPrefix(got, "fmt.Errorf(") && strings.Contains(got, ext(call, 1)) && final == "old" &&
 			strings.Contains(strings.ReplaceAll(got, ext(call, 1), ""), "data"):
